@@ -1080,6 +1080,19 @@ def h11_leaf_domains(ctx, roots):
                                       f"the protocol selects {hs} for {short} under {rq.rsplit('.', 1)[-1]}; it hands node.object ({t_}) to {enc}, "
                                       f"which accepts the type but not every value: {why_} - a document containing such a value cannot "
                                       f"be rendered in this format")
+                    for kw_ in call.keywords:
+                        narrow = ENCODER_KW_PARTIAL.get((enc, kw_.arg))
+                        if narrow is None:
+                            continue
+                        val_, t_, why_ = narrow
+                        if t_ not in types:
+                            continue
+                        if isinstance(kw_.value, ast.Constant) and kw_.value.value is not val_:
+                            continue            # the keyword restates the encoder's total default
+                        ctx.violation("H11", where.file, where.short, call, f"{short} -> {enc} ({kw_.arg})",
+                                      f"the protocol selects {hs} for {short} under {rq.rsplit('.', 1)[-1]}; it hands node.object ({t_}) to "
+                                      f"{enc} with {kw_.arg}={ast.unparse(kw_.value)}, under which the encoder rejects some values of that "
+                                      f"type: {why_} - the loaders produce such values, so a document containing one cannot be rendered")
                     bad = sorted(t for t in types if t not in dom)
                     if short in LEAF_EXEMPT:
                         ctx.note(f"H11: {short} -> {enc} not decided: {LEAF_EXEMPT[short]}")
@@ -1154,6 +1167,11 @@ def h6b_copy_rewrap(ctx):
 # (encoder, static type) pairs for which the encoder raises on SOME values of that type (read from the library source:
 # plistlib._escape raises ValueError for control characters, _PlistWriter.write_value raises OverflowError for ints
 # outside [-2**63, 2**64))
+ENCODER_KW_PARTIAL = {
+    # (encoder, keyword) -> (value under which the domain shrinks, affected static type, what happens)
+    ("json.dumps", "allow_nan"): (False, "float", "ValueError 'Out of range float values are not JSON compliant' for nan / inf / -inf "
+                                                  "(json.encoder.floatstr; json.loads accepts NaN, Infinity and 1e999, yaml accepts .nan/.inf)"),
+}
 ENCODER_VALUE_PARTIAL = {
     ("plistlib.dumps", "str"): "ValueError: strings can't contain control characters (plistlib._escape)",
     ("plistlib.dumps", "bytes"): None,
